@@ -66,4 +66,17 @@ theorem facts_cycle_context :
        ("reviver.go", "run", "context.Background", "")] := by
   decide
 
+/-- **A cycle in flight runs to its end.**  The cycle's context is cancelled in one place only — the `defer cancel()` of
+`run`, i.e. after the ticker loop has returned, and the loop returns only between cycles — and the component starts one
+goroutine, `run` itself: a stop request that arrives while a cycle is between its listing and its last enqueue does not cut
+the cycle short ("every selected server gets its probe" does not depend on when the component is stopped).  *Edit detected:*
+`go func() { <-stop; cancel() }()` ("do not let a slow store keep the shutdown waiting"). -/
+theorem facts_cycle_not_cancelled_in_flight :
+    Facts.cycleRunShape =
+      [("refresher.go", "run", "defer", "cancel()"),
+       ("refresher.go", "New", "go", "run(stop, stopped, clock, logger, uc, cfg)"),
+       ("reviver.go", "run", "defer", "cancel()"),
+       ("reviver.go", "New", "go", "run(stop, stopped, clock, logger, uc, cfg)")] := by
+  decide
+
 end Swat4.C15
